@@ -14,7 +14,7 @@ DIMS = {
     "metrics": [[1024, 950, -250], [1000, 800, -200], [2048, 1900, -500]],
     "width": [1275, 0, 3000],
     "scene": ["base", "nogroup", "three_glyphs", "reuse_rot"],
-    "range": ["300-700", "100-900", "0-1"],
+    "range": ["300-700", "100-900", "0-1", "62.5-112.5"],
     "master_names": ["plain", "suffix"],
     "toml_order": ["ascending", "descending", "default_last"],
 }
